@@ -32,6 +32,8 @@ type vf10cCase struct {
 	Env  map[string]string `json:"env"`
 	Init string            `json:"init"` // base64
 	File string            `json:"file"` // base64
+	// a sequence of file contents (base64) submitted one after the other in the same process
+	Files []string `json:"files"`
 }
 
 type vf10cI64 struct {
@@ -103,8 +105,11 @@ func vf10cTrunc(s string, n int) string {
 	return s
 }
 
-// TestVerif_C10_HotReloadChild runs one case (line VERIF_C10_INDEX of VERIF_CASES) and writes one
-// observation line to VERIF_C10_CHILDOUT.
+// TestVerif_C10_HotReloadChild runs one case (line VERIF_C10_INDEX of VERIF_CASES) and appends one
+// observation line per step to VERIF_C10_CHILDOUT. A case is a SEQUENCE of file contents submitted to
+// a running Core in this one process: when a refused file has stopped the Core (it stops on a reload
+// error), a new Core is started in the same process on the valid initial file and the sequence goes on,
+// so that whatever earlier loads left behind in the process is there for the later ones.
 func TestVerif_C10_HotReloadChild(t *testing.T) {
 	if os.Getenv("VERIF_C10_CHILD") != "1" {
 		t.Skip("child mode only")
@@ -118,63 +123,93 @@ func TestVerif_C10_HotReloadChild(t *testing.T) {
 		}
 		n++
 	})
-	emit := func(o map[string]any) {
-		o["id"] = c.ID
-		b, _ := json.Marshal(o)
-		if err := os.WriteFile(os.Getenv("VERIF_C10_CHILDOUT"), append(b, '\n'), 0o600); err != nil {
-			t.Fatal(err)
-		}
-	}
-	initB, _ := base64.StdEncoding.DecodeString(c.Init)
-	fileB, _ := base64.StdEncoding.DecodeString(c.File)
-	dir := t.TempDir()
-	fp := filepath.Join(dir, "mediamtx.yml")
-	if err := os.WriteFile(fp, initB, 0o600); err != nil {
+	outf, err := os.OpenFile(os.Getenv("VERIF_C10_CHILDOUT"), os.O_APPEND|os.O_CREATE|os.O_WRONLY, 0o600)
+	if err != nil {
 		t.Fatal(err)
 	}
+	defer outf.Close()
+	emit := func(step int, o map[string]any) {
+		o["id"] = c.ID
+		o["step"] = step
+		b, _ := json.Marshal(o)
+		outf.Write(append(b, '\n'))
+	}
+	files := c.Files
+	if len(files) == 0 {
+		files = []string{c.File}
+	}
+	initB, _ := base64.StdEncoding.DecodeString(c.Init)
+	dir := t.TempDir()
+	fp := filepath.Join(dir, "mediamtx.yml")
 	for k, v := range c.Env {
 		os.Setenv(k, v)
 	}
-	p, ok := New([]string{fp})
-	if !ok {
-		emit(map[string]any{"infra": "the initial configuration was not accepted by core.New"})
-		return
-	}
-	before := p.conf.Load()
 
-	// replace the file atomically (what an editor or a config management tool does)
-	tmp := filepath.Join(dir, ".mediamtx.yml.new")
-	if err := os.WriteFile(tmp, fileB, 0o600); err != nil {
-		t.Fatal(err)
-	}
-	if err := os.Rename(tmp, fp); err != nil {
-		t.Fatal(err)
-	}
-
-	deadline := time.After(20 * time.Second)
-	tick := time.NewTicker(2 * time.Millisecond)
-	defer tick.Stop()
-	for {
-		select {
-		case <-p.done:
-			// Core.run closes this channel in a deferred call, which also runs while that goroutine is
-			// panicking: give a dying process the time to die before calling this an orderly stop
-			// (the parent, too, puts a panic in the child's output before any observation)
-			time.Sleep(1500 * time.Millisecond)
-			emit(map[string]any{"err": true, "errMsg": "core stopped after the reload"})
-			return
-		case <-tick.C:
-			if now := p.conf.Load(); now != before {
-				o := map[string]any{"ok": true, "conf": vf10cObserve(now)}
-				p.Close()
-				emit(o)
+	var p *Core
+	var lastSignal time.Time
+	for step, f64 := range files {
+		fileB, _ := base64.StdEncoding.DecodeString(f64)
+		if p == nil {
+			if err = os.WriteFile(fp, initB, 0o600); err != nil {
+				t.Fatal(err)
+			}
+			var ok bool
+			p, ok = New([]string{fp})
+			if !ok {
+				emit(step, map[string]any{"infra": "the initial configuration was not accepted by core.New"})
 				return
 			}
-		case <-deadline:
-			emit(map[string]any{"infra": "no reaction of the Core within 20 s after the file was replaced"})
-			p.Close()
-			return
+			lastSignal = time.Time{}
+		} else if d := 1200*time.Millisecond - time.Since(lastSignal); d > 0 {
+			time.Sleep(d) // the configuration watcher ignores changes within one second of the last one it reported
 		}
+		before := p.conf.Load()
+
+		// replace the file atomically (what an editor or a config management tool does)
+		tmp := filepath.Join(dir, ".mediamtx.yml.new")
+		if err = os.WriteFile(tmp, fileB, 0o600); err != nil {
+			t.Fatal(err)
+		}
+		if err = os.Rename(tmp, fp); err != nil {
+			t.Fatal(err)
+		}
+
+		deadline := time.After(20 * time.Second)
+		tick := time.NewTicker(2 * time.Millisecond)
+		waiting := true
+		for waiting {
+			select {
+			case <-p.done:
+				// Core.run closes this channel in a deferred call, which also runs while that goroutine is
+				// panicking: give a dying process the time to die before calling this an orderly stop
+				// (the parent, too, puts a panic in the child's output before any observation)
+				// (between the steps of a sequence a shorter wait is enough: a dying process does not survive
+				// the next step, and the parent reports the crash)
+				if step == len(files)-1 {
+					time.Sleep(1500 * time.Millisecond)
+				} else {
+					time.Sleep(500 * time.Millisecond)
+				}
+				emit(step, map[string]any{"err": true, "errMsg": "core stopped after the reload"})
+				p = nil
+				waiting = false
+			case <-tick.C:
+				if now := p.conf.Load(); now != before {
+					lastSignal = time.Now()
+					emit(step, map[string]any{"ok": true, "conf": vf10cObserve(now)})
+					waiting = false
+				}
+			case <-deadline:
+				emit(step, map[string]any{"infra": "no reaction of the Core within 20 s after the file was replaced"})
+				tick.Stop()
+				p.Close()
+				return
+			}
+		}
+		tick.Stop()
+	}
+	if p != nil {
+		p.Close()
 	}
 }
 
@@ -185,7 +220,7 @@ func TestVerif_C10_HotReload(t *testing.T) {
 	var cases []json.RawMessage
 	verifrt.ForEachCase(t, func(raw []byte) { cases = append(cases, json.RawMessage(raw)) })
 	tmp := t.TempDir()
-	sem := make(chan struct{}, 6)
+	sem := make(chan struct{}, 12)
 	var wg sync.WaitGroup
 	for i, raw := range cases {
 		wg.Add(1)
@@ -211,32 +246,39 @@ func TestVerif_C10_HotReload(t *testing.T) {
 			cmd.Stdout = &buf
 			cmd.Stderr = &buf
 			runErr := cmd.Run()
-			b, err := os.ReadFile(childOut)
 			died := runErr != nil && (strings.Contains(buf.String(), "panic:") || strings.Contains(buf.String(), "fatal error:"))
-			if err == nil && !died {
-				var o map[string]any
-				if json.Unmarshal(bytes.TrimSpace(b), &o) == nil {
+			steps := 0
+			if b, err := os.ReadFile(childOut); err == nil {
+				for _, line := range bytes.Split(b, []byte("\n")) {
+					var o map[string]any
+					if len(bytes.TrimSpace(line)) == 0 || json.Unmarshal(line, &o) != nil {
+						continue
+					}
 					if msg, bad := o["infra"].(string); bad {
 						o["infra"] = msg + " | child output: " + vf10cTrunc(buf.String(), 600)
 					}
 					out.Emit(o)
-					return
+					steps++
 				}
 			}
 			tail := buf.String()
-			if runErr == nil {
-				out.Emit(map[string]any{"id": c.ID, "infra": "child ended without an observation: " + vf10cTrunc(tail, 500)})
+			if died {
+				// the process died while the next step was in flight
+				if j := strings.Index(tail, "panic:"); j >= 0 {
+					tail = tail[j:]
+				} else if j = strings.Index(tail, "fatal error:"); j >= 0 {
+					tail = tail[j:]
+				}
+				out.Emit(map[string]any{"id": c.ID, "step": steps, "crash": true, "msg": vf10cTrunc(tail, 400)})
 				return
 			}
-			if j := strings.Index(tail, "panic:"); j >= 0 {
-				tail = tail[j:]
-			} else if j = strings.Index(tail, "fatal error:"); j >= 0 {
-				tail = tail[j:]
-			} else {
-				out.Emit(map[string]any{"id": c.ID, "infra": "child failed: " + runErr.Error() + ": " + vf10cTrunc(tail, 500)})
+			if runErr != nil {
+				out.Emit(map[string]any{"id": c.ID, "step": steps, "infra": "child failed: " + runErr.Error() + ": " + vf10cTrunc(tail, 500)})
 				return
 			}
-			out.Emit(map[string]any{"id": c.ID, "crash": true, "msg": vf10cTrunc(tail, 400)})
+			if steps == 0 {
+				out.Emit(map[string]any{"id": c.ID, "step": 0, "infra": "child ended without an observation: " + vf10cTrunc(tail, 500)})
+			}
 		}(i, raw)
 	}
 	wg.Wait()
